@@ -76,7 +76,7 @@ func runOne(ctx context.Context, sp solverSpec, file string, timeoutS int) (stat
 // Solve races the solvers on the script. expectSat only changes which answer stops the race early
 // (any definite answer does).
 func Solve(dir, name string, sc *Script, timeoutS int) *SolverResult {
-	text := sc.Render("", true)
+	text := sc.Render("ALL", true)
 	file := filepath.Join(dir, sanitizeFile(name)+".smt2")
 	if err := os.WriteFile(file, []byte(text), 0o644); err != nil {
 		return &SolverResult{Status: "error", Output: err.Error()}
